@@ -278,7 +278,7 @@ def _closed(ctx, shape):
         ctx.ob("R16.4", f"{q}.update[axes={axes},{orient}]{shape}", ok, "net flux == sum over active axes of (+last-face - first-face) sums of S_a*area_a; 'inward' negates", rec[0].fmt()[:220] if rec else rec, tot.fmt()[:220])
 
 
-def _closed_phasor_net(ctx):
+def _closed_phasor_net(ctx, rule="R16.4", nfreq=1):
     """ClosedSurfacePhasorPoyntingFluxDetector.compute_net_flux: the net flux is the signed sum over the *active* axes
     of the max-face minus the min-face sums of S_a times the face-area weights of that same axis a."""
     from ..harness import stub_repo_calls
@@ -298,7 +298,9 @@ def _closed_phasor_net(ctx):
         (t0,) = [x for x in tag if isinstance(x, tuple) and x and x[0] == "ph"]
         axis, side = t0[1], t0[2]
         pl = planes[axis]
-        return NdArr((1, 3) + pl, [Rat.atom(("S", axis, side, c) + p) for c in range(3) for p in itertools.product(*[range(n) for n in pl])])
+        if ph.shape != (nfreq, 6) + pl:
+            raise AnalysisError(f"_phasor_poynting_vector is handed {ph.shape}, modelled for (num_freqs, 6, *plane)")
+        return NdArr((nfreq, 3) + pl, [Rat.atom(("S", f_, axis, side, c) + p) for f_ in range(nfreq) for c in range(3) for p in itertools.product(*[range(n) for n in pl])])
 
     for axes, orient, mode in itertools.product((None, (0, 1, 2), (2,), (1, 2), (0, 2), (1,)), ("outward", "inward"), ("continuous", "pulse")):
         it = ctx.fresh_interp()
@@ -307,26 +309,29 @@ def _closed_phasor_net(ctx):
         for a in range(3):
             for side in ("min", "max"):
                 pl = planes[a]
-                state[f"phasor_axis{a}_{side}"] = NdArr((1, 1, 6) + pl, [Rat.atom(("ph", a, side, c) + p) for c in range(6) for p in itertools.product(*[range(n) for n in pl])])
+                state[f"phasor_axis{a}_{side}"] = NdArr((1, nfreq, 6) + pl, [Rat.atom(("ph", a, side, c) + p + (f_,)) for f_ in range(nfreq) for c in range(6) for p in itertools.product(*[range(n) for n in pl])])
         act = (0, 1, 2) if axes is None else axes
-        det = Obj(ci, dict(name="box", _face_area_weights_per_axis=tuple(areas), _angular_frequencies=[Rat.atom("w0")], dtype="complex64", orientation=orient, scaling_mode=mode, axes=axes, grid_shape=shape, _resolve_active_axes=Builtin("_resolve_active_axes", lambda it_, a_, k_, _act=act: tuple(_act))), "box")
-        it.ext_overrides["np.zeros"] = lambda it_, a_, k_: NdArr((1,), [0])
+        det = Obj(ci, dict(name="box", _face_area_weights_per_axis=tuple(areas), _angular_frequencies=[Rat.atom(f"w{f_}") for f_ in range(nfreq)], dtype="complex64", orientation=orient, scaling_mode=mode, axes=axes, grid_shape=shape, _resolve_active_axes=Builtin("_resolve_active_axes", lambda it_, a_, k_, _act=act: tuple(_act))), "box")
+        it.ext_overrides["np.zeros"] = lambda it_, a_, k_: NdArr((nfreq,), [0] * nfreq)
         try:
             net = it.call_method(det, "compute_net_flux", state)
         except Raised as r:
             raise AnalysisError(f"compute_net_flux raises: {r}")
-        want = Rat.const(0)
-        for a in act:
-            pl = planes[a]
-            for side, sgn in (("max", 1), ("min", -1)):
-                for p in itertools.product(*[range(n) for n in pl]):
-                    want = want + sgn * Rat.atom(("S", a, side, a) + p) * to_rat(areas[a].data[_flat(pl, p)])
-        if orient == "inward":
-            want = -want
-        if mode == "continuous":
-            want = want / 2
-        got = to_rat(net.data[0]) if isinstance(net, NdArr) and len(net.data) == 1 else None
-        ctx.ob("R16.4", f"{q}.compute_net_flux[axes={axes},{orient},{mode}]", got is not None and got.equals(want), "net flux == sum over the active axes a of (max face - min face) sums of S_a times the face-area weights of axis a itself (not of the a-th entry of the active list); 'inward' negates, continuous mode halves", got.fmt()[:200] if got is not None else net, want.fmt()[:200])
+        wants = []
+        for f_ in range(nfreq):
+            want = Rat.const(0)
+            for a in act:
+                pl = planes[a]
+                for side, sgn in (("max", 1), ("min", -1)):
+                    for p in itertools.product(*[range(n) for n in pl]):
+                        want = want + sgn * Rat.atom(("S", f_, a, side, a) + p) * to_rat(areas[a].data[_flat(pl, p)])
+            if orient == "inward":
+                want = -want
+            if mode == "continuous":
+                want = want / 2
+            wants.append(want)
+        got = [to_rat(v) for v in net.data] if isinstance(net, NdArr) and net.shape == (nfreq,) else None
+        ctx.ob(rule, f"{q}.compute_net_flux[axes={axes},{orient},{mode},freqs={nfreq}]", got is not None and all(g.equals(w) for g, w in zip(got, wants)), "net flux of each frequency == sum over the active axes a of (max face - min face) sums of that frequency's S_a times the face-area weights of axis a itself (not of the a-th entry of the active list, not summed over the frequencies); 'inward' negates, continuous mode halves", [g.fmt()[:120] for g in got] if got is not None else net, [w.fmt()[:120] for w in wants])
 
 
 def _all_component_weights(ctx):
@@ -372,7 +377,7 @@ def _all_component_weights(ctx):
         ctx.ob("R16.7", f"{q}.place_on_grid[keep_all_components]", ok and bad is None, "with all components kept the weights are a (3, *region) array: entry a is the face-area array of axis a (extent one along a) broadcast over the region; placement does not raise", err or bad or getattr(w, "shape", w), (3,) + shape)
 
 
-def _axis_tables(ctx):
+def _axis_tables(ctx, rule="R16.6", only=None):
     """propagation_axis: the fixed axis when given (0 included), else the unique size-one axis, else an error."""
     ix = ctx.index
     shapes = [(1, 4, 5), (4, 1, 5), (4, 5, 1), (1, 1, 5), (1, 4, 1), (3, 4, 5), (1, 1, 1)]
@@ -380,8 +385,9 @@ def _axis_tables(ctx):
     for ci in ix.classes.values():
         m = ci.methods.get("propagation_axis")
         if m is not None and m.is_property and ci.lookup_field("fixed_propagation_axis") is not None and ci.module.name.startswith("fdtdx.objects.detectors"):
-            classes.append(ci)
-    ctx.require_count("R16.6 detector classes with a propagation_axis property", len(classes), 2)
+            if only is None or only(ci):
+                classes.append(ci)
+    ctx.require_count(f"{rule} detector classes with a propagation_axis property", len(classes), 2 if only is None else 1)
     for ci in sorted(classes, key=lambda c: c.qualname):
         ctx.unit(ci.methods["propagation_axis"].where())
         bad = []
@@ -398,7 +404,7 @@ def _axis_tables(ctx):
             n += 1
             if got != want:
                 bad.append((fixed, shape, got, want))
-        ctx.ob("R16.6", f"{ci.qualname}.propagation_axis", not bad, f"decision table over fixed axis in (None,0,1,2) x {len(shapes)} region shapes", bad[:3], "fixed axis if given (0 included) else the unique size-one axis else an error")
+        ctx.ob(rule, f"{ci.qualname}.propagation_axis", not bad, f"decision table over fixed axis in (None,0,1,2) x {len(shapes)} region shapes", bad[:3], "fixed axis if given (0 included) else the unique size-one axis else an error")
 
 
 def _weights(ctx):
@@ -444,6 +450,7 @@ def run(ctx):
     _weights(ctx)
     _phasor_family_inverse(ctx)
     _closed_phasor_net(ctx)
+    _closed_phasor_net(ctx, nfreq=2)
     _all_component_weights(ctx)
     if err is not None:
         raise AnalysisError(err)
